@@ -87,3 +87,40 @@ func (P *Prog) CtxGuards(s CtxSite, depth int) []Atom {
 	}
 	return dedupeAtoms(out)
 }
+
+// uniqueSiteOfNewHelper returns the single static call site of f when f is a new helper with exactly one, else nil.
+func (P *Prog) uniqueSiteOfNewHelper(f *ssa.Function) *ssa.Call {
+	if f == nil || f.Parent() != nil || !P.isNewHelper(f) {
+		return nil
+	}
+	if P.helperSites == nil {
+		P.helperSites = map[*ssa.Function][]*ssa.Call{}
+		for _, fn := range P.RepoFns {
+			Instrs(fn, func(in ssa.Instruction) {
+				if c, ok := in.(*ssa.Call); ok {
+					if h := staticCallee(&c.Call); h != nil && P.isNewHelper(h) {
+						P.helperSites[h] = append(P.helperSites[h], c)
+					}
+				}
+			})
+		}
+	}
+	if s := P.helperSites[f]; len(s) == 1 && s[0].Parent() != f {
+		return s[0]
+	}
+	return nil
+}
+
+// liftToPinned maps a function to the pinned function it acts for: a new helper with a single call site stands for
+// its caller (repeatedly); closures stand for their enclosing top-level function.
+func (P *Prog) liftToPinned(f *ssa.Function) *ssa.Function {
+	for i := 0; i < 5; i++ {
+		f = enclosingTop(f)
+		s := P.uniqueSiteOfNewHelper(f)
+		if s == nil {
+			return f
+		}
+		f = s.Parent()
+	}
+	return enclosingTop(f)
+}
